@@ -70,7 +70,8 @@ package gensign
 //@   ensures [handlers-asked-in-configured-order] authInOrder(handlers, params)
 //@   ensures [request-comes-from-the-first-handler-that-accepted] calls(Generator.Generate) <= old(calls(Generator.Generate)) + 1 &&
 //@     (calls(Generator.Generate) == old(calls(Generator.Generate)) + 1 ==> (firstAccepted() && generated(params)))
-//@   ensures [all-authentications-failed] (nAuth() == len(handlers) && authFailedBefore(nAuth())) ==> (isErr(err, 7) && nothingDownstream())
+//@   ensures [all-authentications-failed] (nAuth() == len(handlers) && authFailedBefore(nAuth())) ==> ((isErr(err, 7) || isErr(err, 10)) && nothingDownstream())
+//@   ensures [all-failed-without-panic-is-AllAuthFailed] (nAuth() == len(handlers) && authFailedBefore(nAuth()) && !isErr(err, 10)) ==> isErr(err, 7)
 //@   ensures [nothing-signed-or-added-without-a-generated-request] (calls(Signer.Sign) > old(calls(Signer.Sign)) || calls(AgentKey.AddCertsToAgent) > old(calls(AgentKey.AddCertsToAgent))) ==> generatedOK(params)
 //@   ensures [generation-error-returned] (generated(params) && !panicked(Generator.Generate, old(calls(Generator.Generate))) && ret(Generator.Generate, old(calls(Generator.Generate)), 1) != nil) ==>
 //@     (err == ret(Generator.Generate, old(calls(Generator.Generate)), 1) && calls(Signer.Sign) == old(calls(Signer.Sign)) && calls(AgentKey.AddCertsToAgent) == old(calls(AgentKey.AddCertsToAgent)))
@@ -97,3 +98,4 @@ package gensign
 //@     invariant authInOrder(handlers, params) && firstAccepted() && generatedOK(params) && csrAgentKeys == ret(Generator.Generate, old(calls(Generator.Generate)), 0) && len(csrAgentKeys) >= 1
 //@     invariant calls(AgentKey.AddCertsToAgent) == old(calls(AgentKey.AddCertsToAgent)) + rangeindex#2 && calls(AgentKey.CSRs) == old(calls(AgentKey.CSRs)) + rangeindex#2 + 1
 //@     invariant 0 <= rangeindex#2 && rangeindex#2 < len(csrAgentKeys) && allSignedSoFar() && allAddedSoFar() && err == nil
+//@     invariant (certs == nil || fresh(arr(certs))) && (comments == nil || fresh(arr(comments)))
